@@ -233,6 +233,16 @@ def worker_main(argv):
         calls = ['%s:%d %s' % (os.path.basename(f.filename), f.lineno, f.name) for f in tb[-6:]]
         ctx.violation('library-internal-error', {'where': where, 'exception': type(e).__name__, 'stack': calls},
                       '%s: %s raised at %s and escaped to the caller' % (type(e).__name__, e, where))
+    except ValueError as e:
+        # datetime itself refuses what a tzinfo method of the library returned (|offset| >= 24 h): raised by the C code on
+        # behalf of the library object, so the last Python frame is the harness - still an observation about the library
+        if 'offset must be a timedelta strictly between' not in str(e):
+            raise
+        import traceback
+        tb = traceback.extract_tb(e.__traceback__)
+        ctx.violation('library-internal-error', {'where': 'utcoffset()/dst() of a library tzinfo', 'exception': 'ValueError',
+                                                 'stack': ['%s:%d %s' % (os.path.basename(f.filename), f.lineno, f.name) for f in tb[-4:]]},
+                      'a zone object reported an offset outside (-24 h, 24 h): %s' % e)
     except BaseException as e:
         # a guard lock found the calling thread re-acquiring a non-reentrant lock it already holds (the call could never
         # return): a verdict derived from lock ownership, wherever in the workload it surfaced
